@@ -193,3 +193,46 @@ func (m *genIDMember) PushBlobChunkedResume(ctx context.Context, repo, id string
 	}
 	return &genIDWriter{BlobWriter: w, m: m, base: base}, nil
 }
+
+// ---- members whose readers really end at Close ----
+
+// strictMember wraps a registry so that every reader it hands out refuses to be read after Close
+// (ocimem's readers keep working after Close, which hides a reader that was closed too early).
+type strictMember struct{ ociregistry.Interface }
+
+type strictReader struct {
+	ociregistry.BlobReader
+	closed bool
+}
+
+func (r *strictReader) Read(p []byte) (int, error) {
+	if r.closed {
+		return 0, fmt.Errorf("read on closed reader")
+	}
+	return r.BlobReader.Read(p)
+}
+
+func (r *strictReader) Close() error {
+	r.closed = true
+	return r.BlobReader.Close()
+}
+
+func strict(r ociregistry.BlobReader, err error) (ociregistry.BlobReader, error) {
+	if err != nil || r == nil {
+		return r, err
+	}
+	return &strictReader{BlobReader: r}, nil
+}
+
+func (m strictMember) GetBlob(ctx context.Context, repo string, d ociregistry.Digest) (ociregistry.BlobReader, error) {
+	return strict(m.Interface.GetBlob(ctx, repo, d))
+}
+func (m strictMember) GetBlobRange(ctx context.Context, repo string, d ociregistry.Digest, o0, o1 int64) (ociregistry.BlobReader, error) {
+	return strict(m.Interface.GetBlobRange(ctx, repo, d, o0, o1))
+}
+func (m strictMember) GetManifest(ctx context.Context, repo string, d ociregistry.Digest) (ociregistry.BlobReader, error) {
+	return strict(m.Interface.GetManifest(ctx, repo, d))
+}
+func (m strictMember) GetTag(ctx context.Context, repo string, tag string) (ociregistry.BlobReader, error) {
+	return strict(m.Interface.GetTag(ctx, repo, tag))
+}
